@@ -140,6 +140,33 @@ def _install_fs_killpoint(fp):
     sys.addaudithook(hook)
 
 
+def _install_kill_after_replace(fp):
+    """fp = {"kind": "kill_after_replace", "contains": [...], "nth": n}: the process is killed right AFTER the
+    n-th os.replace/os.rename whose destination contains one of the substrings has been carried out
+    (whatever the program still held in unflushed buffers at that moment is lost)."""
+    state = {"n": 0}
+    real = {"replace": os.replace, "rename": os.rename}
+
+    def wrap(name):
+        def f(src, dst, *a, **kw):
+            r = real[name](src, dst, *a, **kw)
+            try:
+                d = os.fspath(dst)
+                d = d.decode("utf-8", "replace") if isinstance(d, bytes) else d
+            except TypeError:
+                d = ""
+            if any(c in d for c in fp["contains"]):
+                state["n"] += 1
+                if state["n"] == fp["nth"]:
+                    os._exit(137)
+            return r
+
+        return f
+
+    os.replace = wrap("replace")
+    os.rename = wrap("rename")
+
+
 def _install_audit(fd, utime_delay):
     pid = os.getpid()
 
@@ -312,6 +339,8 @@ def run_gwf(
             sys.argv = ["gwf"] + list(args)
             if failpoint and failpoint.get("kind") == "kill_at_fs_event":
                 _install_fs_killpoint(failpoint)
+            elif failpoint and failpoint.get("kind") == "kill_after_replace":
+                _install_kill_after_replace(failpoint)
             elif failpoint:
                 _install_failpoint(failpoint)
             if audit:
